@@ -40,6 +40,106 @@ def pIgnore : P (Option Filter)
       (some (.include (SetMatcher.mergeAll (pats.map SetMatcher.ofPrefix))), r)
   | _ => none
 
+/-! ### iteration order of `managedAtVersion` as an explicit parameter
+
+`addBackOwnedItems` ranges over a Go map of versions; the versions other than the pruned one are
+visited in an order Go picks at random, and the result can depend on it (finding D10).  The driver
+therefore evaluates `Apply` for every order: `applyOrd perm` is `SMD.apply` with the remaining versions
+reordered by `perm` (`applyOrd id = apply`, checked at run time on every step). -/
+
+def addBackOwnedOrd (perm : List (String × SetTrie) → List (String × SetTrie)) (u : Updater) (sc : Schema)
+    (merged pruned : TV) (prunedVersion : String) (managers : Managed) : Outcome TV :=
+  let mav := managedAtVersion managers
+  let first : Outcome (TV × TV) :=
+    match mav.find? (·.1 == prunedVersion) with
+    | some (_, managed) => addBackForVersion u sc merged pruned prunedVersion managed
+    | none => .ok (merged, pruned)
+  let rest := perm (mav.filter (·.1 != prunedVersion))
+  let r := rest.foldl (fun (acc : Outcome (TV × TV)) (vm : String × SetTrie) =>
+    match acc with
+    | .ok (merged, pruned) => addBackForVersion u sc merged pruned vm.1 vm.2
+    | e => e) first
+  match r with
+  | .ok (_, pruned) => .ok pruned
+  | .conflict c => .conflict c
+  | .err => .err
+  | .panic => .panic
+
+def pruneOrd (perm : List (String × SetTrie) → List (String × SetTrie)) (u : Updater) (sc : Schema) (merged : TV)
+    (managers : Managed) (applyingManager : String) (lastSet : Option VersionedSet) : Outcome TV :=
+  match lastSet with
+  | none => .ok merged
+  | some last =>
+    if last.set.isEmpty then .ok merged
+    else
+      match u.converter.convert merged last.version with
+      | .missing => .ok merged
+      | .fail => .err
+      | .ok convertedMerged =>
+        let pruned := removeItemsTV sc convertedMerged (last.set.ensureNamed sc convertedMerged.type)
+        match addBackOwnedOrd perm u sc convertedMerged pruned last.version managers with
+        | .ok pruned =>
+          (match addBackDangling u sc convertedMerged pruned last with
+           | .ok pruned =>
+             let v := ((mfGet managers applyingManager).map (·.version)).getD last.version
+             (match u.converter.convert pruned v with
+              | .ok tv => .ok tv
+              | .missing => .err
+              | .fail => .err)
+           | e => e)
+        | e => e
+
+def applyOrd (perm : List (String × SetTrie) → List (String × SetTrie)) (u : Updater) (sc : Schema) (live config : TV)
+    (version : String) (managers : Managed) (manager : String) (force : Bool) : Outcome (Option TV × Managed) :=
+  match reconcileManaged u sc live managers with
+  | .ok managers =>
+    liftRes (mergeTV sc live config) fun newObject =>
+    let lastSet := mfGet managers manager
+    liftRes (toFieldSet sc config) fun set =>
+    let set := applyIgnore u version set
+    let managers := mfSet managers manager ⟨set, version, true⟩
+    (match pruneOrd perm u sc newObject managers manager lastSet with
+     | .ok newObject =>
+       (match updateCore u sc live newObject version managers manager force with
+        | .ok (managers, _) =>
+          if !u.returnInputOnNoop && Value.equals live.value newObject.value then .ok (none, managers)
+          else .ok (some newObject, managers)
+        | .conflict c => .conflict c
+        | .err => .err
+        | .panic => .panic)
+     | .conflict c => .conflict c
+     | .err => .err
+     | .panic => .panic)
+  | .conflict c => .conflict c
+  | .err => .err
+  | .panic => .panic
+
+/-- all permutations of a (short) list -/
+def perms {α : Type} : List α → List (List α)
+  | [] => [[]]
+  | x :: xs => (perms xs).flatMap fun p => (List.range (p.length + 1)).map fun i => p.take i ++ [x] ++ p.drop i
+
+def pManaged : P Managed
+  | 'm' :: 'f' :: '[' :: cs =>
+    let pEntry : P (String × VersionedSet) := fun cs =>
+      match cs with
+      | '(' :: r =>
+        match pStr r with
+        | some (k, r1) =>
+          match pStr r1 with
+          | some (ver, r2) =>
+            match pFlag r2 with
+            | some (ap, r3) =>
+              match pTrie r3 with
+              | some (t, ')' :: r4) => some ((k, ⟨t, ver, ap⟩), r4)
+              | _ => none
+            | none => none
+          | none => none
+        | none => none
+      | _ => none
+    pMany pEntry ']' cs []
+  | _ => none
+
 def pOptValue : P (Option Value)
   | '_' :: cs => some (none, cs)
   | cs => (pValue cs).map fun (v, r) => (some v, r)
@@ -69,6 +169,14 @@ def stepUpd (st : State) (name : String) (rest : List Char) : Option (State × S
     (arg pTypeRef fun tr => arg pIgnore fun ig => arg pFlag fun noop => done (tr, ig, noop)) rest |>.map fun ((tr, ig, noop), _) =>
       ({ st with rootType := tr, live := .null, managers := [],
                  updater := { converter := Converter.identity, ignore := fun _ => ig, returnInputOnNoop := noop } }, "ok")
+  | "upd.conv" =>
+    -- converter configuration: versions reported missing / failing with an ordinary error
+    let pStrs : P (List String) := fun cs => match cs with
+      | '[' :: r => pMany pStr ']' r []
+      | _ => none
+    (arg pStrs fun missing => arg pStrs fun failing => done (missing, failing)) rest |>.map fun ((missing, failing), _) =>
+      ({ st with updater := { st.updater with converter :=
+          ⟨fun tv v => if failing.contains v then .fail else if missing.contains v then .missing else .ok tv⟩ } }, "ok")
   | "upd.apply" =>
     (arg pStr fun mgr => arg pStr fun ver => arg pFlag fun force => arg pValue fun cfg => done (mgr, ver, force, cfg)) rest |>.map
       fun ((mgr, ver, force, cfg), _) =>
@@ -76,14 +184,29 @@ def stepUpd (st : State) (name : String) (rest : List Char) : Option (State × S
         | .err => (st, "invalid")
         | .panic => (st, "panic")
         | .ok tv =>
-          match apply st.updater s ⟨st.live, st.rootType⟩ tv ver st.managers mgr force with
-          | .ok (obj, mf) =>
-            let live' := match obj with | some o => o.value | none => st.live
-            ({ st with live := live', managers := mf },
-              "ok obj=" ++ (match obj with | some o => encValue o.value | none => "_") ++ " " ++ encManaged mf)
-          | .conflict c => (st, encConflicts c)
-          | .err => (st, "err")
-          | .panic => (st, "panic")
+          let render (r : Outcome (Option TV × Managed)) : String :=
+            match r with
+            | .ok (obj, mf) => "ok obj=" ++ (match obj with | some o => encValue o.value | none => "_") ++ " " ++ encManaged mf
+            | .conflict c => encConflicts c
+            | .err => "err"
+            | .panic => "panic"
+          let base := apply st.updater s ⟨st.live, st.rootType⟩ tv ver st.managers mgr force
+          -- every iteration order of the versions visited by addBackOwnedItems
+          let nRest := (managedAtVersion (mfSet st.managers mgr ⟨SetTrie.empty, ver, true⟩)).length
+          let idxPerms := perms (List.range nRest)
+          let alts := idxPerms.map fun ip =>
+            render (applyOrd (fun l => if l.length ≤ 1 then l else (ip.filterMap fun i => l[i]?) ++ l.drop ip.length)
+              st.updater s ⟨st.live, st.rootType⟩ tv ver st.managers mgr force)
+          let alts := (alts.foldl (fun acc a => if acc.contains a then acc else acc ++ [a]) [render base])
+          let st' := match base with
+            | .ok (obj, mf) => { st with live := (match obj with | some o => o.value | none => st.live), managers := mf }
+            | _ => st
+          if alts.length ≤ 1 then (st', render base)
+          else (st', "nondet{" ++ String.intercalate " || " alts ++ "}")
+  | "upd.sync" =>
+    -- adopt the implementation's state (after a step whose outcome depends on Go's map order)
+    (arg pValue fun live => arg pManaged fun mf => done (live, mf)) rest |>.map fun ((live, mf), _) =>
+      ({ st with live := live, managers := mf }, "ok")
   | "upd.update" =>
     (arg pStr fun mgr => arg pStr fun ver => arg pValue fun obj => done (mgr, ver, obj)) rest |>.map
       fun ((mgr, ver, obj), _) =>
